@@ -25,6 +25,7 @@ func runC09(c *mon.Ctx) {
 		c.Cases(func(i int, r *mon.Rand) {
 			c09Round(c, r)
 			c09BucketRace(c, r.Fork(77), 8)
+			c09SecondLife(c, r.Fork(78))
 		})
 	}
 }
@@ -472,4 +473,132 @@ func c09BucketRace(c *mon.Ctx, r *mon.Rand, iters int) {
 		}
 		c.Event("colliding-first-use-races", 1)
 	}
+}
+
+// c09SecondLife: first use, again. (1) A child scope is closed (no pass in
+// between, so the closed object is still registered) and then requested by
+// several goroutines at the same moment: they must all get the same live
+// object and everything they record must arrive. (2) Several goroutines ask
+// for the root's own identity through the degenerate derivations
+// (Tagged(nil), Tagged(empty), Tagged(tags the root already has),
+// SubScope("") on a prefix-less root) and for one counter on it: one scope,
+// one counter, one Allocate call.
+func c09SecondLife(c *mon.Ctx, r *mon.Rand) {
+	cached := r.Bool()
+	var rec *mon.Recorder
+	rootTags := map[string]string{"rt": "x"}
+	opts := tally.ScopeOptions{OmitCardinalityMetrics: true, Tags: map[string]string{"rt": "x"}}
+	if cached {
+		cr := mon.NewCachedRec(true)
+		rec = cr.Recorder
+		opts.CachedReporter = cr
+	} else {
+		pr := mon.NewPlainRec(true)
+		rec = pr.Recorder
+		opts.Reporter = pr
+	}
+	shards := uint(r.Range(0, 8))
+	prof := mon.RandomProfile(r, []int{tally.VerifSubscopeUpgrade, tally.VerifReacquireBeforeReport, tally.VerifMetricProbeMissed}, r.Intn(3))
+	prof.Prob[tally.VerifSubscopeUpgrade] = r.Range(200, 900)
+	inj := mon.NewDelayInjector(r.U64(), prof, false)
+	inj.Install()
+	defer inj.Uninstall()
+	root, _ := vNewRoot(opts, 0, shards)
+	G := r.Range(2, 8)
+	tagged := r.Bool()
+	desc := map[string]interface{}{"cached": cached, "shards": shards, "goroutines": G, "child_is_tagged": tagged}
+	bad := func(sig, why string) { c.Violation(sig, map[string]interface{}{"why": why, "case": desc}) }
+	get := func() tally.Scope {
+		if tagged {
+			return root.Tagged(map[string]string{"id": "kid"})
+		}
+		return root.SubScope("kid")
+	}
+	var want int64
+	rounds := r.Range(1, 4)
+	for round := 0; round < rounds; round++ {
+		first := get()
+		first.Counter("c").Inc(1 << 40)
+		want += 1 << 40
+		first.(io.Closer).Close()
+		got := make([]tally.Scope, G)
+		var wg sync.WaitGroup
+		var ready int32
+		for g := 0; g < G; g++ {
+			wg.Add(1)
+			go func(g int) {
+				defer wg.Done()
+				defer func() { recover() }()
+				atomic.AddInt32(&ready, 1)
+				for atomic.LoadInt32(&ready) < int32(G) {
+					runtime.Gosched()
+				}
+				got[g] = get()
+				got[g].Counter("c").Inc(1 << uint(g))
+			}(g)
+		}
+		wg.Wait()
+		want += 1<<uint(G) - 1
+		for g := 1; g < G; g++ {
+			if got[g] == nil || got[0] == nil || ptrOf(got[g]) != ptrOf(got[0]) {
+				bad("child-scope-split", fmt.Sprintf("round %d: goroutines 0 and %d that requested the just-closed child at the same moment received different scope objects", round, g))
+				break
+			}
+		}
+		if got[0] != nil && ptrOf(got[0]) == ptrOf(first) {
+			bad("closed-scope-returned", "the closed scope object itself was handed out again")
+		}
+		tally.VerifReportPass(root)
+	}
+	// the root's own identity
+	reqs := []func() tally.Scope{
+		func() tally.Scope { return root.Tagged(nil) },
+		func() tally.Scope { return root.Tagged(map[string]string{}) },
+		func() tally.Scope { return root.Tagged(map[string]string{"rt": "x"}) },
+		func() tally.Scope { return root.SubScope("") },
+	}
+	rootCtr := make([]tally.Counter, G)
+	var wg sync.WaitGroup
+	for g := 0; g < G; g++ {
+		wg.Add(1)
+		go func(g int) {
+			defer wg.Done()
+			defer func() { recover() }()
+			sc := reqs[g%len(reqs)]()
+			rootCtr[g] = sc.Counter("rootc")
+			rootCtr[g].Inc(1 << uint(g))
+		}(g)
+	}
+	wg.Wait()
+	direct := root.Counter("rootc")
+	for g := 0; g < G; g++ {
+		if rootCtr[g] != direct {
+			bad("metric-split/counter", fmt.Sprintf("a counter obtained through a derivation that ends at the root's own identity (variant %d) is not the root's counter of that name", g%len(reqs)))
+			break
+		}
+	}
+	tally.VerifReportPass(root)
+	log, agg, _ := rec.Snapshot()
+	kidKey := mon.IdentKey("kid.c", rootTags)
+	if tagged {
+		kidKey = mon.IdentKey("c", map[string]string{"rt": "x", "id": "kid"})
+	}
+	if got := agg[kidKey].Sum; got != want {
+		bad("lost-first-use-increment", fmt.Sprintf("child counter: delivered %#x, recorded %#x over %d close/re-request rounds", got, want, rounds))
+	}
+	if got, w := agg[mon.IdentKey("rootc", rootTags)].Sum, int64(1)<<uint(G)-1; got != w {
+		bad("lost-first-use-increment", fmt.Sprintf("root counter reached through degenerate derivations: delivered %#x, recorded %#x", got, w))
+	}
+	if cached {
+		n := 0
+		for _, ev := range log {
+			if ev.Kind == mon.EvAllocCounter && ev.Name == "rootc" {
+				n++
+			}
+		}
+		if n > 1 {
+			bad("allocated-more-than-once", fmt.Sprintf("AllocateCounter(rootc) called %d times", n))
+		}
+	}
+	c.Event("second-life-rounds", int64(rounds))
 }
